@@ -527,6 +527,44 @@ pub fn run_c15(out: &mut Out, tier: &str, _seed: u64) {
             if !any { out.hit("harness.no-release-observed", format!("scenario {} length {}", names[variant], len), json!({"variant":variant,"len":len})); }
         }
     }
+    // the wipe does not depend on a system call succeeding: with the one mprotect(READ|WRITE) on the released region refused
+    // (seccomp filter in a child, keyed on that region's size), a region that was writable all along is still wiped
+    for len in [5000usize, 9000] {
+        let child = |magic: u32| -> String {
+            let mut fds = [0i32; 2]; unsafe { libc::pipe(fds.as_mut_ptr()); } let pid = unsafe { libc::fork() };
+            if pid == 0 { unsafe { libc::close(fds[0]); libc::mallopt(-6 /* M_PERTURB */, 0x11); libc::alarm(60); } let mut w = unsafe { <std::fs::File as std::os::unix::io::FromRawFd>::from_raw_fd(fds[1]) };
+                dryoc::protected::verif_set_release_observer(Some(release_observer));
+                let mut hb = HeapBytes::default(); hb.resize(len, SECRET);
+                if magic != 0 {
+                    #[repr(C)] struct Filt { code: u16, jt: u8, jf: u8, k: u32 }
+                    #[repr(C)] struct Prog { len: u16, filter: *const Filt }
+                    let filt = [Filt { code: 0x20, jt: 0, jf: 0, k: 0 },                                   // A = nr
+                                Filt { code: 0x15, jt: 0, jf: 3, k: libc::SYS_mprotect as u32 },            // mprotect ?
+                                Filt { code: 0x20, jt: 0, jf: 0, k: 24 },                                   // A = low word of args[1] (len)
+                                Filt { code: 0x15, jt: 0, jf: 1, k: magic },                                // the released region's size ?
+                                Filt { code: 0x06, jt: 0, jf: 0, k: 0x0005_0000 | (libc::EPERM as u32) },   //   refuse
+                                Filt { code: 0x06, jt: 0, jf: 0, k: 0x7fff_0000 }];                         // allow
+                    let prog = Prog { len: 6, filter: filt.as_ptr() };
+                    let ok = unsafe { libc::prctl(libc::PR_SET_NO_NEW_PRIVS, 1, 0, 0, 0) == 0 && libc::prctl(libc::PR_SET_SECCOMP, 2, &prog as *const Prog) == 0 };
+                    if !ok { let _ = w.write_all(b"nofilter\n"); unsafe { libc::_exit(0); } }
+                }
+                hb.resize(16, 0);
+                drop(hb);
+                finish(&mut w); let _ = w.flush(); unsafe { libc::_exit(0); } }
+            unsafe { libc::close(fds[1]); } let mut r = unsafe { <std::fs::File as std::os::unix::io::FromRawFd>::from_raw_fd(fds[0]) }; let mut t = String::new(); let _ = r.read_to_string(&mut t); let mut st = 0; unsafe { libc::waitpid(pid, &mut st, 0); } t };
+        // first learn the size the allocator is handed for this container, then refuse mprotect for exactly that size
+        let plain = child(0);
+        let size: u32 = plain.lines().filter(|l| l.starts_with("R ")).last().and_then(|l| l.split(' ').nth(1).and_then(|x| x.parse().ok())).unwrap_or(0);
+        if size == 0 { continue; }
+        let t = child(size);
+        out.search_evaluations += 1;
+        if t.starts_with("nofilter") { out.notes.insert("mprotect_refused".into(), json!("not exercised: the seccomp filter could not be installed here")); continue; }
+        out.notes.insert("mprotect_refused".into(), json!("mprotect of the released region -> EPERM under a seccomp filter"));
+        let mut any = false;
+        for l in t.lines() { let f: Vec<&str> = l.split(' ').collect(); if f[0] == "R" { any = true; if f[2].parse::<i64>().unwrap_or(0) > 0 || f.get(3).and_then(|x| x.parse::<usize>().ok()).unwrap_or(0) >= 8 {
+            out.hit("heapbytes.released-unwiped.mprotect-refused", format!("HeapBytes of {} bytes shrunk to 16 and dropped while mprotect of its region is refused: {} bytes released with {} non-zero", len, f[1], f[2]), json!({"op":"heapbytes.release","len":len,"scenario":"mprotect refused"})); } } }
+        if !any { out.notes.insert("mprotect_refused".into(), json!("no release observed with the filter installed")); }
+    }
     // plain HeapBytes (no Protected wrapper): grow / shrink / drop
     for len in [16usize, PAGE, PAGE + 1] {
         for variant in 0..3 {
